@@ -141,8 +141,11 @@ void LinePrinter::Print(string to_print, LineType type) {
 
     have_blank_line_ = false;
   } else {
+    if (!have_blank_line_)
+      printf("\n");
     printf("%s\n", to_print.c_str());
     fflush(stdout);
+    have_blank_line_ = true;
   }
 }
 
@@ -158,9 +161,12 @@ void LinePrinter::PrintOrBuffer(const char* data, size_t size) {
 
 void LinePrinter::PrintOnNewLine(const string& to_print) {
   if (console_locked_ && !line_buffer_.empty()) {
+    if (!have_blank_line_)
+      output_buffer_.append(1, '\n');
     output_buffer_.append(line_buffer_);
     output_buffer_.append(1, '\n');
     line_buffer_.clear();
+    have_blank_line_ = true;
   }
   if (!have_blank_line_) {
     PrintOrBuffer("\n", 1);
